@@ -44,7 +44,7 @@ func runC20(p *core.Prog, r *core.Report) {
 	r.Rule("C20-R3", "the pid written to stdout is the started command's Process.Pid, written only on the success edge of Start; Launch runs the launcher to completion (Run, not Start) and returns a nil error only when Run succeeded, stderr was empty and the pid was read", 3)
 	r.Rule("C20-R4", "role flags agree: the flag value the launcher puts in the daemon's environment selects the handler in Run, the value Launch puts in the launcher's environment selects the launcher", 2)
 	r.NotDecided = append(r.NotDecided, "process-level facts: that the daemon is re-parented and survives, pipe behaviour; no process is started by this check")
-	r.Trusted = append(r.Trusted, "signal.Notify installs the handler before it returns", "exec.Cmd.Start/Run/Wait contracts", "go/ssa")
+	r.Trusted = append(r.Trusted, "signal.Notify installs the handler before it returns", "exec.Cmd.Start/Run/Wait contracts (cmd.Process is non-nil after a successful Start)", "go/ssa")
 
 	fns := p.PkgFuncs("daemon")
 	isNotify := func(c ssa.CallInstruction) bool { return sx.CalleeName(c) == "os/signal.Notify" }
@@ -262,10 +262,51 @@ func runC20(p *core.Prog, r *core.Report) {
 		if !sawExit {
 			problems = append(problems, "no arm receives from a channel that is closed after cmd.Wait returned")
 		}
+		// the hand-shake channel is read nowhere but in that wait: a receive (or a draining non-blocking select) elsewhere
+		// can swallow a Done() that arrived early
+		if notifyChan != nil {
+			var extra []string
+			for _, fn := range fns {
+				sx.Instrs(fn, func(in ssa.Instruction) {
+					switch x := in.(type) {
+					case *ssa.UnOp:
+						if x.Op == token.ARROW && sameChan(x.X, notifyChan) {
+							extra = append(extra, "receive at "+p.Pos(in.Pos()))
+						}
+					case *ssa.Select:
+						if x == sel {
+							return
+						}
+						for _, st := range x.States {
+							if st.Dir == types.RecvOnly && sameChan(st.Chan, notifyChan) {
+								extra = append(extra, "select arm at "+p.Pos(in.Pos()))
+							}
+						}
+					}
+				})
+			}
+			r.Check(len(extra) == 0, "C20-R2", fnName(launcher)+": the hand-shake channel is received from only in the wait", p.Pos(sel.Pos()), "one receiver: the blocking select", "the channel registered with signal.Notify is also read elsewhere ("+strings.Join(extra, ", ")+"): a Done() that arrives before the wait is taken there and thrown away — the launcher then waits for the daemon to exit and Launch does not return for a running daemon")
+		}
 		r.Check(len(problems) == 0, "C20-R2", fnName(launcher)+": select arms are exactly {signal, daemon exit}", p.Pos(sel.Pos()), "2 receive arms: hand-shake signal, daemon-exit channel", strings.Join(problems, "; "))
 		// every return after a successful Start passes the wait
 		_, nonNil := sx.NilEdges(startCall)
-		c2 := sx.Cut{Instrs: map[ssa.Instruction]bool{waitPoint: true}, Edges: nonNil}
+		c2 := sx.Cut{Instrs: map[ssa.Instruction]bool{waitPoint: true}, Edges: map[sx.Edge]bool{}}
+		for e := range nonNil {
+			c2.Edges[e] = true
+		}
+		// os/exec: after Start returned nil, cmd.Process is set — a defensive `cmd.Process == nil` test is dead on its nil edge
+		sx.Instrs(launcher, func(in ssa.Instruction) {
+			ld, ok := in.(*ssa.UnOp)
+			if !ok || ld.Op != token.MUL {
+				return
+			}
+			if fa, ok := ld.X.(*ssa.FieldAddr); ok && sx.OwnerName(fa.X.Type()) == "Cmd" && sx.FieldOf(fa) != nil && sx.FieldOf(fa).Name() == "Process" {
+				nilE, _ := sx.NilEdges(ld)
+				for e := range nilE {
+					c2.Edges[e] = true
+				}
+			}
+		})
 		okAll := len(nonNil) > 0
 		for _, ret := range sx.Returns(launcher) {
 			if sx.ReachInstr(launcher, startCall, ret, c2) {
@@ -539,6 +580,9 @@ func runC20(p *core.Prog, r *core.Report) {
 			}
 			f := sx.FieldOf(fa)
 			switch f.Name() {
+			case "Dir":
+				// the command is os.Args[0], possibly a relative path: os/exec resolves it against Dir
+				r.Check(sx.IsNilConst(st.Val) || func() bool { k, ok := sx.ConstString(st.Val); return ok && k == "" }(), "C20-R3", fnName(fn)+": the re-executed command keeps the caller's working directory", p.Pos(in.Pos()), "cmd.Dir left empty", "cmd.Dir is set to "+short(sx.ValPath(st.Val))+" while the command is os.Args[0]: a program started through a relative path (./app) can no longer be found — Launch fails (or starts another file) although the handler is registered")
 			case "Stdin", "Stdout", "Stderr":
 				org := sx.Origins(st.Val)
 				fresh := len(org) == 1 && org["alloc"]
@@ -598,6 +642,42 @@ func runC20(p *core.Prog, r *core.Report) {
 				}
 			}
 		})
+		// the handler that runs is the one registered under exactly the name in the environment (Launch(name) promises the
+		// process running *that* handler): the registry is indexed with the variable's value itself
+		{
+			okKey, nLk := true, 0
+			whyK := ""
+			rv := p.Inl(runFn)
+			sx.Instrs(rv, func(in ssa.Instruction) {
+				lk, ok := in.(*ssa.Lookup)
+				if !ok {
+					return
+				}
+				if _, isMap := lk.X.Type().Underlying().(*types.Map); !isMap {
+					return
+				}
+				mt := lk.X.Type().Underlying().(*types.Map)
+				if _, isFn := mt.Elem().Underlying().(*types.Signature); !isFn {
+					return
+				}
+				nLk++
+				key := sx.Unspill(lk.Index)
+				okThis := false
+				if e, isE := key.(*ssa.Extract); isE && e.Index == 0 {
+					if c, isC := e.Tuple.(*ssa.Call); isC && sx.CalleeName(c) == "os.LookupEnv" {
+						okThis = true
+					}
+				}
+				if c, isC := key.(*ssa.Call); isC && sx.CalleeName(c) == "os.Getenv" {
+					okThis = true
+				}
+				if !okThis {
+					okKey = false
+					whyK = "the handler registry is indexed with " + short(sx.ValPath(key)) + " (" + keys(sx.Origins(key)) + ") at " + p.Pos(lk.Pos()) + ", not with the name variable's value itself: a handler registered under the exact name is not the one that runs"
+				}
+			})
+			r.Check(okKey && nLk > 0, "C20-R4", "Run looks the handler up under exactly the launched name", p.FuncPos(runFn), "handlers[name] with name as read from the environment", whyK)
+		}
 		r.Check(okP, "C20-R4", "Run recognises a re-executed process by the presence of the name variable", p.FuncPos(runFn), "os.LookupEnv + ok", why)
 	}
 
